@@ -32,7 +32,9 @@ func newVerifyWorld(tp *Tape, base time.Time) (*verifyWorld, error) {
 		return nil, fmt.Errorf("etype %d", tp.Etype)
 	}
 	w := &verifyWorld{tp: tp, base: base}
-	w.ktm = world.BuildKeytab(tp.RunSeed, []string{"HTTP/s1", "HTTP/s2"}, []string{"SIM.TEST"}, []int{2}, []int{tp.Etype})
+	// two key versions per account, as after a key change (outstanding and renewed tickets are sealed
+	// under different keys of the one service)
+	w.ktm = world.BuildKeytab(tp.RunSeed, []string{"HTTP/s1", "HTTP/s2"}, []string{"SIM.TEST"}, []int{1, 2}, []int{tp.Etype})
 	// service aliases: HTTP/a1 and HTTP/a2 are further names of the accounts of s1 and s2 and share
 	// their keys (as service principal names of one account do)
 	for _, e := range append([]world.KtEntry{}, w.ktm.Entries...) {
@@ -61,7 +63,11 @@ func newVerifyWorld(tp *Tape, base time.Time) (*verifyWorld, error) {
 func (w *verifyWorld) present(op Op, ct time.Time) string {
 	et := w.tp.Etype
 	svc := "HTTP/" + op.Svc
-	ent := w.ktm.Select([]string{"HTTP", op.Svc}, "SIM.TEST", 2, int32(et))
+	kvno := int64(2)
+	if op.Kvno == 1 {
+		kvno = 1
+	}
+	ent := w.ktm.Select([]string{"HTTP", op.Svc}, "SIM.TEST", kvno, int32(et))
 	if ent == nil {
 		return "error"
 	}
@@ -73,7 +79,7 @@ func (w *verifyWorld) present(op Op, ct time.Time) string {
 	cname := rk.PrincipalName{Type: 1, Names: cnames}
 	etp := rk.EncTicketPart{Flags: rk.Bit(rk.FlagInitial), Key: sess, CRealm: crealm, CName: cname, TrType: 1,
 		AuthTime: start, StartTime: &start, EndTime: w.base.Add(400 * time.Hour).Truncate(time.Second)}
-	tenc, err := rk.Seal(ent.Key, rk.KUTicket, etp.EncBytes(), r.Bytes(rcrypto.ConfounderSize(et)), 2, true)
+	tenc, err := rk.Seal(ent.Key, rk.KUTicket, etp.EncBytes(), r.Bytes(rcrypto.ConfounderSize(et)), kvno, true)
 	if err != nil {
 		return "error"
 	}
